@@ -1,0 +1,9 @@
+//! Verification hooks (feature `verif-hooks`, off by default).
+//!
+//! Add-only instrumentation used by the machinery in `/verif`: it exposes
+//! crate-private stages of the pipeline (MIR / LIR text, the IR evaluator)
+//! through plain data types. Nothing here is compiled unless the feature is
+//! enabled, and nothing outside this module refers to it.
+#![allow(missing_docs)]
+
+pub mod core;
